@@ -1201,6 +1201,17 @@ func addrUses(v ssa.Value) (write, read bool) {
 				read = true
 				continue
 			}
+			if b, ok := cc.Value.(*ssa.Builtin); ok && b.Name() == "append" {
+				read = true
+				if len(cc.Args) > 0 && cc.Args[0] == v {
+					write = true
+				}
+				continue
+			}
+			if calleeOnlyReadsSlices(u) {
+				read = true
+				continue
+			}
 			read, write = true, true
 		case *ssa.DebugRef:
 		default:
@@ -1226,4 +1237,38 @@ func topFn(f *ssa.Function) *ssa.Function {
 		f = f.Parent()
 	}
 	return f
+}
+
+func constantToInt(k *types.Const) (int64, bool) {
+	if k.Val().Kind() != constant.Int {
+		return 0, false
+	}
+	return constant.Int64Val(k.Val())
+}
+
+// calleeOnlyReadsSlices: callees that by contract never modify the byte slices they are handed
+// (io.Writer.Write "must not modify the slice data", ByteOrder.UintNN, comparisons, encoders, fmt).
+func calleeOnlyReadsSlices(c ssa.CallInstruction) bool {
+	o := calleeObj(c)
+	if o == nil {
+		return false
+	}
+	name := o.Name()
+	pkg := ""
+	if o.Pkg() != nil {
+		pkg = o.Pkg().Path()
+	}
+	if sig, ok := o.Type().(*types.Signature); ok && sig.Recv() != nil {
+		switch name {
+		case "Write", "WriteString", "Uint16", "Uint32", "Uint64", "Sum", "Seal", "Open", "Equal":
+			// Seal/Open/Sum write only to their dst (first) argument, which callers here pass as nil
+			return true
+		}
+		return false
+	}
+	switch pkg {
+	case "fmt", "bytes", "strings", "encoding/hex", "encoding/base64", "crypto/hmac", "crypto/subtle", "crypto/aes", "crypto/sha256", "unicode/utf8":
+		return true
+	}
+	return false
 }
